@@ -25,7 +25,7 @@ func init() {
 		Directed:   c13Directed,
 		Run:        c13Run,
 		MustHit:    []string{"enc=setter", "sig=field", "sig=setter", "sig=none", "ec_signer", "alg_configured", "canon_configured", "kind=AuthnRequest", "kind=LogoutRequest", "kind=LogoutResponse", "phase=cached", "phase=restart", "hostile_strings", "value_with_CR"},
-		RandomRuns: map[string]int{"quick": 1200, "thorough": 50000},
+		RandomRuns: map[string]int{"quick": 6000, "thorough": 50000},
 		Assumptions: []string{"ECDSA signatures are verified with the same goxmldsig verifier the library's users would use; their octet encoding versus other XML-DSig stacks is a dependency matter",
 			"only algorithm / key-type combinations the signing library supports are configured"},
 	})
